@@ -1,7 +1,7 @@
 (* Proofs for xheap.Heap and xheap.PriorityQueue: invariants over all histories, refinement of
    the ideal multiset / finite map (C05) and the iterator properties (C15). *)
 From Coq Require Import Permutation Sorted.
-From Juniper Require Import Common.Base Heap.Model Heap.Spec Heap.Lemmas.
+From Juniper Require Import Common.Base Heap.Model Heap.Spec Heap.Corr Heap.Lemmas.
 
 (* ---------- small list facts ---------- *)
 Lemma Forall_upd {A} (P : A -> Prop) (l : list A) n x :
@@ -26,6 +26,20 @@ Lemma Forall2_nth_error {A B} (R : A -> B -> Prop) (l : list A) (m : list B) n :
 Proof.
   intros H. revert n. induction H as [|a b l m Hab Hlm IH]; intros [|n]; simpl; auto.
   apply IH.
+Qed.
+
+Lemma Forall2_nth_error_Some {A B} (R : A -> B -> Prop) (l : list A) (m : list B) n a :
+  Forall2 R l m -> nth_error l n = Some a -> exists b, nth_error m n = Some b /\ R a b.
+Proof.
+  intros H E. pose proof (Forall2_nth_error R l m n H) as Hn. rewrite E in Hn.
+  destruct (nth_error m n) as [b|]; [exists b; auto|contradiction].
+Qed.
+
+Lemma Forall2_nth_error_None {A B} (R : A -> B -> Prop) (l : list A) (m : list B) n :
+  Forall2 R l m -> nth_error l n = None -> nth_error m n = None.
+Proof.
+  intros H E. pose proof (Forall2_nth_error R l m n H) as Hn. rewrite E in Hn.
+  destruct (nth_error m n) as [b|]; [contradiction|reflexivity].
 Qed.
 
 Lemma Forall2_snoc {A B} (R : A -> B -> Prop) (l : list A) (m : list B) x y :
@@ -550,6 +564,43 @@ Section HeapHist.
     - intros Hp. apply Hpop in Hp. rewrite hstep_pop_empty by exact Hp. reflexivity.
     - rewrite hstep_peek. reflexivity.
   Qed.
+  (* popping until empty returns everything, in non-decreasing order *)
+  Lemma heap_drain_from : forall n s,
+      ho (ha (hh s)) -> length (ha (hh s)) = n ->
+      exists xs, hrun_from s (repeat HPop n) = map OVal xs /\
+                 Permutation xs (ha (hh s)) /\ nondecreasing less xs /\
+                 ha (hh (hrun_state_from s (repeat HPop n))) = [].
+  Proof.
+    induction n as [|n IH]; intros s Ho Hlen.
+    - exists []. simpl. split; [reflexivity|].
+      destruct (ha (hh s)); [|discriminate]. repeat split; constructor.
+    - destruct (zget (ha (hh s)) 0) as [x|] eqn:E0;
+        [|apply zget0_nil in E0; rewrite E0 in Hlen; discriminate].
+      destruct (hstep_pop s x E0) as [h' [E [_ [Hp Ho']]]].
+      assert (Hlen' : length (ha h') = n).
+      { apply Permutation_length in Hp. simpl in Hp. lia. }
+      destruct (IH (mkHst h' (hits s)) (Ho' SWO Ho) Hlen') as [xs [Hrun [Hpx [Hsort Hemp]]]].
+      exists (x :: xs). change (repeat HPop (S n)) with (HPop :: repeat HPop n).
+      cbn [Model.hrun_from Model.hrun_state_from]. rewrite E. cbn [fst map].
+      split; [rewrite Hrun; reflexivity|].
+      split; [eapply perm_trans; [apply perm_skip; exact Hpx|apply Permutation_sym; exact Hp]|].
+      split; [|exact Hemp].
+      constructor; [exact Hsort|].
+      apply Forall_forall. intros y Hy.
+      destruct (root_is_min (ha (hh s)) x Ho E0) as [_ Hmin]. apply Hmin.
+      eapply Permutation_in; [apply Permutation_sym; exact Hp|].
+      right. eapply Permutation_in; [exact Hpx|exact Hy].
+  Qed.
+
+  Lemma heap_drain_sorted initial ops :
+    let s := hrun_state initial ops in
+    let n := length (ha (hh s)) in
+    exists xs, hrun_from s (repeat HPop n) = map OVal xs /\
+               Permutation xs (ha (hh s)) /\ nondecreasing less xs /\
+               ha (hh (hrun_state_from s (repeat HPop n))) = [].
+  Proof.
+    intros s n. apply heap_drain_from; [apply heap_ordered_reach|reflexivity].
+  Qed.
 End HeapHist.
 
 (* ---------- xheap.PriorityQueue[int,int]: gen and iterators (C15) ---------- *)
@@ -559,8 +610,8 @@ Section QueueIter.
   Notation qstep := (qstep pless).
   Notation qinit := (qinit pless).
   Notation qrun_state := (qrun_state pless).
-  Notation kpl := (kpless pless).
-  Notation kpi := (kp_index Z.eqb).
+  Notation kpl := (@kpless Z Z pless).
+  Notation kpi := (@kp_index Z Z Z.eqb).
 
   Lemma qnew_ok initial :
     exists q, qnew pless initial = Ok q /\ hgen q = 0.
@@ -766,11 +817,11 @@ Section QueueIter.
     destruct o; try (apply Hother; exact I).
     - simpl. apply Forall2_snoc; [exact H|apply ginv_new].
     - unfold qghost_step. rewrite qstep_iter_next.
-      pose proof (Forall2_nth_error _ _ _ j H) as Hj.
-      destruct (nth_error (qits s) j) as [it|] eqn:Ej; destruct (nth_error gs j) as [g|] eqn:Egj;
-        try contradiction; [|exact H].
-      simpl. apply Forall2_upd; [exact H|].
-      apply ginv_next; assumption.
+      destruct (nth_error (qits s) j) as [it|] eqn:Ej.
+      + destruct (Forall2_nth_error_Some _ _ _ j it H Ej) as [g [Egj Hj]]. rewrite Egj.
+        simpl. apply Forall2_upd; [exact H|].
+        apply ginv_next; assumption.
+      + rewrite (Forall2_nth_error_None _ _ _ j H Ej). exact H.
   Qed.
 
   Lemma qgrun_inv : forall ops s gs,
@@ -790,3 +841,905 @@ Section QueueIter.
     - destruct (qinit_eq initial) as [q [_ [E _]]]. rewrite E. constructor.
   Qed.
 End QueueIter.
+
+(* ---------- the index map of the priority queue ---------- *)
+Section IndexMap.
+  Notation mget := (m_get Z.eqb).
+  Notation mset := (m_set Z.eqb).
+  Notation mdel := (m_del Z.eqb).
+  Notation kpi := (@kp_index Z Z Z.eqb).
+  Notation zkp := (Z * Z)%type.
+  Notation qcore := (core zkp (imap Z)).
+
+  Lemma m_get_set k v m k' : mget (mset k v m) k' = if k' =? k then Some v else mget m k'.
+  Proof.
+    induction m as [|[k0 v0] r IH]; simpl.
+    - destruct (k' =? k); reflexivity.
+    - destruct (Z.eqb_spec k k0) as [->|Hne]; simpl.
+      + destruct (k' =? k0); reflexivity.
+      + destruct (Z.eqb_spec k' k0) as [->|Hne2].
+        * destruct (Z.eqb_spec k0 k); [congruence|reflexivity].
+        * exact IH.
+  Qed.
+
+  Lemma m_get_del k m k' : mget (mdel k m) k' = if k' =? k then None else mget m k'.
+  Proof.
+    induction m as [|[k0 v0] r IH]; simpl.
+    - destruct (k' =? k); reflexivity.
+    - destruct (Z.eqb_spec k k0) as [->|Hne]; simpl.
+      + rewrite IH. destruct (k' =? k0); reflexivity.
+      + destruct (Z.eqb_spec k' k0) as [->|Hne2].
+        * destruct (Z.eqb_spec k0 k); [congruence|reflexivity].
+        * exact IH.
+  Qed.
+
+  (* every array element is indexed correctly *)
+  Definition tracks (a : list zkp) (m : imap Z) : Prop :=
+    forall i x, zget a i = Some x -> mget m (fst x) = Some i.
+
+  (* every indexed key is in the array, except the keys in E *)
+  Definition dom_sub (a : list zkp) (m : imap Z) (E : Z -> Prop) : Prop :=
+    forall k i, mget m k = Some i -> In k (map fst a) \/ E k.
+
+  Lemma zget_of_nat {A} (l : list A) n : zget l (Z.of_nat n) = nth_error l n.
+  Proof.
+    unfold zget. destruct (Z.of_nat n <? 0) eqn:E; [apply Z.ltb_lt in E; lia|].
+    rewrite Nat2Z.id. reflexivity.
+  Qed.
+
+  Lemma tracks_inj a m i j x y :
+    tracks a m -> zget a i = Some x -> zget a j = Some y -> fst x = fst y -> i = j.
+  Proof.
+    intros Ht Hi Hj E. apply Ht in Hi. apply Ht in Hj. rewrite E in Hi. congruence.
+  Qed.
+
+  Lemma tracks_nodup a m : tracks a m -> NoDup (map fst a).
+  Proof.
+    intros Ht. apply NoDup_nth_error. intros i j Hi E.
+    rewrite map_length in Hi.
+    rewrite !nth_error_map in E.
+    destruct (nth_error a i) as [x|] eqn:Ei; [|apply nth_error_None in Ei; lia].
+    destruct (nth_error a j) as [y|] eqn:Ej; [|discriminate].
+    simpl in E. injection E as E.
+    rewrite <- zget_of_nat in Ei, Ej.
+    pose proof (tracks_inj a m _ _ x y Ht Ei Ej E). lia.
+  Qed.
+
+  Lemma In_key_zget (a : list zkp) k : In k (map fst a) -> exists i p, zget a i = Some (k, p).
+  Proof.
+    intros H. apply in_map_iff in H. destruct H as [[k0 p] [E Hin]]. simpl in E. subst k0.
+    apply In_zget in Hin. destruct Hin as [i Hi]. exists i, p. exact Hi.
+  Qed.
+
+  Lemma zget_In_key (a : list zkp) i x : zget a i = Some x -> In (fst x) (map fst a).
+  Proof. intros H. apply in_map. eapply zget_In; exact H. Qed.
+
+  Lemma exact_of_tracks a m :
+    tracks a m -> dom_sub a m (fun _ => False) -> index_exact Z.eqb a m.
+  Proof.
+    intros Ht Hd. split; [|eapply tracks_nodup; exact Ht].
+    intros k i. split.
+    - intros Hm. destruct (Hd k i Hm) as [Hin|[]].
+      apply In_key_zget in Hin. destruct Hin as [i' [p Hi']].
+      pose proof (Ht i' (k, p) Hi') as Hm'. simpl in Hm'.
+      assert (i' = i) by congruence. subst i'. exists p. exact Hi'.
+    - intros [p Hp]. apply (Ht i (k, p) Hp).
+  Qed.
+
+  Lemma tracks_of_exact a m : index_exact Z.eqb a m -> tracks a m.
+  Proof. intros [He _] i [k p] Hx. simpl. apply He. exists p. exact Hx. Qed.
+
+  Lemma dom_of_exact a m E : index_exact Z.eqb a m -> dom_sub a m E.
+  Proof.
+    intros [He _] k i Hm. left. apply He in Hm. destruct Hm as [p Hp].
+    apply (zget_In_key a i (k, p) Hp).
+  Qed.
+
+  (* preserved by swap (with its two notifications) *)
+  Lemma tracks_swapc (c : qcore) i j x y :
+    zget (fst c) i = Some x -> zget (fst c) j = Some y ->
+    tracks (fst c) (snd c) -> tracks (fst (swapc kpi i j x y c)) (snd (swapc kpi i j x y c)).
+  Proof.
+    intros Hi Hj Ht k z Hz.
+    rewrite (swapc_get kpi i j x y c k Hi Hj) in Hz.
+    unfold swapc, kp_index. simpl snd. rewrite !m_get_set.
+    destruct (Z.eqb_spec k j) as [->|Hkj].
+    - injection Hz as <-. rewrite Z.eqb_refl. reflexivity.
+    - destruct (Z.eqb_spec k i) as [->|Hki].
+      + injection Hz as <-.
+        destruct (Z.eqb_spec (fst y) (fst x)) as [E|E].
+        * pose proof (tracks_inj _ _ _ _ _ _ Ht Hi Hj (eq_sym E)). lia.
+        * rewrite Z.eqb_refl. reflexivity.
+      + destruct (Z.eqb_spec (fst z) (fst x)) as [E|E].
+        * pose proof (tracks_inj _ _ _ _ _ _ Ht Hz Hi E). lia.
+        * destruct (Z.eqb_spec (fst z) (fst y)) as [E2|E2].
+          -- pose proof (tracks_inj _ _ _ _ _ _ Ht Hz Hj E2). lia.
+          -- apply Ht. exact Hz.
+  Qed.
+
+  Lemma dom_sub_swapc (c : qcore) i j x y E :
+    zget (fst c) i = Some x -> zget (fst c) j = Some y ->
+    dom_sub (fst c) (snd c) E -> dom_sub (fst (swapc kpi i j x y c)) (snd (swapc kpi i j x y c)) E.
+  Proof.
+    intros Hi Hj Hd k v Hm.
+    assert (Hperm : forall k0, In k0 (map fst (fst c)) -> In k0 (map fst (fst (swapc kpi i j x y c)))).
+    { intros k0. apply Permutation_in. apply Permutation_map, Permutation_sym.
+      apply swapc_perm; assumption. }
+    unfold swapc, kp_index in Hm. simpl snd in Hm. rewrite !m_get_set in Hm.
+    destruct (Z.eqb_spec k (fst x)) as [->|E1].
+    - left. apply Hperm. eapply zget_In_key; exact Hi.
+    - destruct (Z.eqb_spec k (fst y)) as [->|E2].
+      + left. apply Hperm. eapply zget_In_key; exact Hj.
+      + destruct (Hd k v Hm) as [H|H]; [left; apply Hperm; exact H|right; exact H].
+  Qed.
+
+  Lemma swaps_tracks (c c' : qcore) E :
+    swaps kpi c c' -> tracks (fst c) (snd c) /\ dom_sub (fst c) (snd c) E ->
+    tracks (fst c') (snd c') /\ dom_sub (fst c') (snd c') E.
+  Proof.
+    intros Hs. apply (swaps_preserve kpi (fun c => tracks (fst c) (snd c) /\ dom_sub (fst c) (snd c) E));
+      [|exact Hs].
+    intros c0 i j x y Hi Hj [Ht Hd]. split; [apply tracks_swapc|apply dom_sub_swapc]; assumption.
+  Qed.
+
+  Lemma swaps_dom (c c' : qcore) E :
+    swaps kpi c c' -> dom_sub (fst c) (snd c) E -> dom_sub (fst c') (snd c') E.
+  Proof.
+    intros Hs. apply (swaps_preserve kpi (fun c => dom_sub (fst c) (snd c) E)); [|exact Hs].
+    intros c0 i j x y Hi Hj Hd. apply dom_sub_swapc; assumption.
+  Qed.
+
+  (* a[i] := x where a[i] already had key (fst x); notify(i) *)
+  Lemma set_inv a m i k p p0 :
+    index_exact Z.eqb a m -> zget a i = Some (k, p0) ->
+    tracks (upd a (Z.to_nat i) (k, p)) (mset k i m) /\
+    dom_sub (upd a (Z.to_nat i) (k, p)) (mset k i m) (fun _ => False).
+  Proof.
+    intros Hex Hi. pose proof (tracks_of_exact _ _ Hex) as Ht.
+    pose proof (zget_Some_range _ _ _ Hi) as Ri.
+    split.
+    - intros j z Hz. rewrite m_get_set.
+      destruct (Z.eq_dec j i) as [->|Hji].
+      + rewrite zget_upd_same in Hz by lia. injection Hz as <-. simpl. rewrite Z.eqb_refl. reflexivity.
+      + rewrite zget_upd_other in Hz by lia.
+        destruct (Z.eqb_spec (fst z) k) as [E|E].
+        * pose proof (tracks_inj _ _ _ _ z (k, p0) Ht Hz Hi E). lia.
+        * apply Ht. exact Hz.
+    - intros k' v Hm. left. rewrite m_get_set in Hm.
+      destruct (Z.eqb_spec k' k) as [->|E].
+      + apply (zget_In_key _ i (k, p)). apply zget_upd_same. lia.
+      + destruct Hex as [He _]. apply He in Hm. destruct Hm as [p' Hp'].
+        destruct (Z.eq_dec v i) as [->|Hvi]; [rewrite Hi in Hp'; congruence|].
+        apply (zget_In_key _ v (k', p')). rewrite zget_upd_other by lia. exact Hp'.
+  Qed.
+
+  (* append a new key; notify(len-1) *)
+  Lemma push_inv a m k p :
+    index_exact Z.eqb a m -> mget m k = None ->
+    tracks (a ++ [(k, p)]) (mset k (zlen a) m) /\
+    dom_sub (a ++ [(k, p)]) (mset k (zlen a) m) (fun _ => False).
+  Proof.
+    intros Hex Hk. pose proof (tracks_of_exact _ _ Hex) as Ht. split.
+    - intros j z Hz. rewrite m_get_set.
+      pose proof (zget_Some_range _ _ _ Hz) as Rj. rewrite zlen_snoc in Rj.
+      destruct (Z.eq_dec j (zlen a)) as [->|Hj].
+      + rewrite zget_app_last in Hz. injection Hz as <-. simpl. rewrite Z.eqb_refl. reflexivity.
+      + rewrite zget_app_l in Hz by lia.
+        destruct (Z.eqb_spec (fst z) k) as [E|E].
+        * apply Ht in Hz. rewrite E in Hz. congruence.
+        * apply Ht. exact Hz.
+    - intros k' v Hm. left. rewrite m_get_set in Hm. rewrite map_app, in_app_iff.
+      destruct (Z.eqb_spec k' k) as [->|E]; [right; left; reflexivity|].
+      left. destruct (dom_of_exact _ _ (fun _ => False) Hex k' v Hm) as [H|[]]. exact H.
+  Qed.
+
+  (* a[i] := last; truncate; notify(i) if i is still inside: everything but key k is indexed *)
+  Lemma cut_inv a m i k p0 lst :
+    index_exact Z.eqb a m -> zget a i = Some (k, p0) -> zget a (zlen a - 1) = Some lst ->
+    let c3 := cut_core kpi a m i lst in
+    tracks (fst c3) (snd c3) /\ dom_sub (fst c3) (snd c3) (fun k' => k' = k) /\
+    ~ In k (map fst (fst c3)).
+  Proof.
+    intros Hex Hi Hl c3. pose proof (tracks_of_exact _ _ Hex) as Ht.
+    pose proof (zget_Some_range _ _ _ Hi) as Ri.
+    assert (Hnk : ~ In k (map fst (cut a i lst))).
+    { pose proof (cut_perm a i (k, p0) lst Hi Hl) as Hp.
+      destruct Hex as [_ Hnd]. apply (Permutation_map fst) in Hp.
+      apply (Permutation_NoDup Hp) in Hnd. simpl in Hnd. inversion Hnd; assumption. }
+    unfold c3, cut_core. simpl fst. simpl snd.
+    destruct (i <? zlen a - 1) eqn:Ei.
+    - apply Z.ltb_lt in Ei. unfold kp_index. split; [|split; [|exact Hnk]].
+      + intros j z Hz. rewrite m_get_set.
+        pose proof (zget_Some_range _ _ _ Hz) as Rj. rewrite cut_len in Rj by lia.
+        destruct (Z.eq_dec j i) as [->|Hji].
+        * rewrite cut_get_i in Hz by lia. injection Hz as <-. rewrite Z.eqb_refl. reflexivity.
+        * apply cut_get in Hz; [|lia|exact Hji].
+          destruct (Z.eqb_spec (fst z) (fst lst)) as [E|E].
+          -- pose proof (tracks_inj _ _ _ _ _ _ Ht Hz Hl E). lia.
+          -- apply Ht. exact Hz.
+      + intros k' v Hm. rewrite m_get_set in Hm.
+        destruct (Z.eqb_spec k' (fst lst)) as [->|E].
+        * left. apply (zget_In_key _ i lst). apply cut_get_i. lia.
+        * destruct Hex as [He _]. apply He in Hm. destruct Hm as [p' Hp'].
+          pose proof (zget_Some_range _ _ _ Hp') as Rv.
+          destruct (Z.eq_dec v i) as [->|Hvi]; [right; rewrite Hi in Hp'; congruence|].
+          destruct (Z.eq_dec v (zlen a - 1)) as [->|Hvl];
+            [rewrite Hl in Hp'; injection Hp' as ->; simpl in E; congruence|].
+          left. apply (zget_In_key _ v (k', p')).
+          unfold cut. rewrite zget_firstn by lia. rewrite zget_upd_other by lia. exact Hp'.
+    - apply Z.ltb_ge in Ei. assert (Eil : i = zlen a - 1) by lia. subst i.
+      split; [|split; [|exact Hnk]].
+      + intros j z Hz. rewrite cut_last in Hz. apply zget_firstn_Some in Hz. apply Ht. exact Hz.
+      + intros k' v Hm. destruct Hex as [He _]. apply He in Hm. destruct Hm as [p' Hp'].
+        pose proof (zget_Some_range _ _ _ Hp') as Rv.
+        destruct (Z.eq_dec v (zlen a - 1)) as [->|Hvl]; [right; rewrite Hi in Hp'; congruence|].
+        left. apply (zget_In_key _ v (k', p')). rewrite cut_last.
+        rewrite zget_firstn by lia. exact Hp'.
+  Qed.
+
+  Lemma finish_del a m k :
+    tracks a m -> dom_sub a m (fun k' => k' = k) -> ~ In k (map fst a) ->
+    index_exact Z.eqb a (mdel k m).
+  Proof.
+    intros Ht Hd Hnk. apply exact_of_tracks.
+    - intros i x Hx. rewrite m_get_del.
+      destruct (Z.eqb_spec (fst x) k) as [E|E].
+      + exfalso. apply Hnk. rewrite <- E. eapply zget_In_key; exact Hx.
+      + apply Ht. exact Hx.
+    - intros k' v Hm. rewrite m_get_del in Hm.
+      destruct (Z.eqb_spec k' k) as [E|E]; [discriminate|].
+      destruct (Hd k' v Hm) as [H|H]; [left; exact H|congruence].
+  Qed.
+
+  (* the notification loop at the end of New *)
+  Lemma notified_other : forall (l : list zkp) i m k,
+      ~ In k (map fst l) -> mget (notified kpi l i m) k = mget m k.
+  Proof.
+    induction l as [|x r IH]; intros i m k Hk; [reflexivity|].
+    simpl. rewrite IH by (intros H; apply Hk; right; exact H).
+    unfold kp_index. rewrite m_get_set.
+    destruct (Z.eqb_spec k (fst x)) as [->|E]; [exfalso; apply Hk; left; reflexivity|reflexivity].
+  Qed.
+
+  Lemma notified_nth : forall (l : list zkp) i m n x,
+      NoDup (map fst l) -> nth_error l n = Some x ->
+      mget (notified kpi l i m) (fst x) = Some (i + Z.of_nat n).
+  Proof.
+    induction l as [|y r IH]; intros i m n x Hnd Hn; [destruct n; discriminate|].
+    simpl in Hnd. inversion Hnd as [|k0 l0 Hnotin Hnd']; subst.
+    destruct n as [|n]; simpl in Hn.
+    - injection Hn as ->. simpl. rewrite notified_other by exact Hnotin.
+      unfold kp_index. rewrite m_get_set, Z.eqb_refl. f_equal. lia.
+    - simpl. rewrite (IH (i + 1) _ n x Hnd' Hn). f_equal. lia.
+  Qed.
+
+  Lemma notified_inv (a : list zkp) m :
+    NoDup (map fst a) -> dom_sub a m (fun _ => False) ->
+    index_exact Z.eqb a (notified kpi a 0 m).
+  Proof.
+    intros Hnd Hd. apply exact_of_tracks.
+    - intros i x Hx. pose proof (zget_Some_range _ _ _ Hx) as Ri.
+      apply zget_nth_error in Hx.
+      rewrite (notified_nth a 0 m (Z.to_nat i) x Hnd Hx). f_equal. lia.
+    - intros k v Hm.
+      destruct (in_dec Z.eq_dec k (map fst a)) as [Hin|Hnin]; [left; exact Hin|].
+      rewrite notified_other in Hm by exact Hnin. exact (Hd k v Hm).
+  Qed.
+End IndexMap.
+
+(* ---------- association lists (the ideal map) ---------- *)
+Lemma filter_perm {A} (f : A -> bool) (l l' : list A) :
+  Permutation l l' -> Permutation (filter f l) (filter f l').
+Proof.
+  intros H. induction H as [|x l l' H IH|x y l|l l' l'' H1 IH1 H2 IH2]; simpl.
+  - apply perm_nil.
+  - destruct (f x); [apply perm_skip|]; exact IH.
+  - destruct (f x), (f y); try apply Permutation_refl. apply perm_swap.
+  - eapply perm_trans; eassumption.
+Qed.
+
+Lemma i_get_None k l : i_get k l = None <-> ~ In k (map fst l).
+Proof.
+  induction l as [|[k0 p0] r IH]; simpl; [tauto|].
+  destruct (Z.eqb_spec k k0) as [->|Hne].
+  - split; [discriminate|]. intros H. exfalso. apply H. left. reflexivity.
+  - rewrite IH. split; [intros H [E|Hin]; [congruence|auto]|intros H Hin; apply H; right; exact Hin].
+Qed.
+
+Lemma i_get_In k p l : NoDup (map fst l) -> (i_get k l = Some p <-> In (k, p) l).
+Proof.
+  induction l as [|[k0 p0] r IH]; intros Hnd; simpl; [split; [discriminate|tauto]|].
+  simpl in Hnd. inversion Hnd as [|k1 l1 Hnotin Hnd']; subst.
+  destruct (Z.eqb_spec k k0) as [->|Hne].
+  - split.
+    + intros E. injection E as ->. left. reflexivity.
+    + intros [E|Hin]; [injection E as ->; reflexivity|].
+      exfalso. apply Hnotin. apply (in_map fst) in Hin. exact Hin.
+  - rewrite (IH Hnd'). split; [intros H; right; exact H|intros [E|H]; [congruence|exact H]].
+Qed.
+
+Lemma i_get_remove k k0 l : i_get k (i_remove k0 l) = if k =? k0 then None else i_get k l.
+Proof.
+  induction l as [|[k1 p1] r IH]; simpl.
+  - destruct (k =? k0); reflexivity.
+  - destruct (Z.eqb_spec k0 k1) as [->|Hne]; simpl.
+    + rewrite IH. destruct (Z.eqb_spec k k1); reflexivity.
+    + rewrite IH. destruct (Z.eqb_spec k k1) as [->|Hne2]; [|reflexivity].
+      destruct (Z.eqb_spec k1 k0); [congruence|reflexivity].
+Qed.
+
+Lemma i_get_app k l x :
+  i_get k (l ++ [x]) =
+  match i_get k l with Some p => Some p | None => if k =? fst x then Some (snd x) else None end.
+Proof.
+  induction l as [|[k1 p1] r IH]; simpl.
+  - destruct x as [k0 p0]. simpl. reflexivity.
+  - destruct (k =? k1); [reflexivity|exact IH].
+Qed.
+
+Lemma keys_filter (f : Z * Z -> bool) l k : In k (map fst (filter f l)) -> In k (map fst l).
+Proof.
+  intros H. apply in_map_iff in H. destruct H as [x [E Hin]]. apply filter_In in Hin.
+  apply in_map_iff. exists x. tauto.
+Qed.
+
+Lemma nodup_filter_keys (f : Z * Z -> bool) l :
+  NoDup (map fst l) -> NoDup (map fst (filter f l)).
+Proof.
+  induction l as [|x r IH]; intros H; simpl; [constructor|].
+  simpl in H. inversion H as [|k0 l0 Hnotin Hnd]; subst.
+  destruct (f x); simpl; [constructor|]; auto.
+  intros Hin. apply Hnotin. eapply keys_filter; exact Hin.
+Qed.
+
+Lemma i_remove_notin k l : ~ In k (map fst l) -> i_remove k l = l.
+Proof.
+  induction l as [|[k0 p0] r IH]; intros H; simpl; [reflexivity|].
+  destruct (Z.eqb_spec k k0) as [->|Hne]; simpl.
+  - exfalso. apply H. left. reflexivity.
+  - f_equal. apply IH. intros Hin. apply H. right. exact Hin.
+Qed.
+
+Lemma i_remove_key k l : ~ In k (map fst (i_remove k l)).
+Proof. rewrite <- i_get_None. rewrite i_get_remove, Z.eqb_refl. reflexivity. Qed.
+
+Lemma i_remove_perm_cons k p l r :
+  NoDup (map fst l) -> Permutation l ((k, p) :: r) -> Permutation (i_remove k l) r.
+Proof.
+  intros Hnd Hp.
+  assert (Hnd' : NoDup (map fst ((k, p) :: r))).
+  { eapply Permutation_NoDup; [apply Permutation_map; exact Hp|exact Hnd]. }
+  simpl in Hnd'. inversion Hnd' as [|k0 l0 Hnotin _]; subst.
+  eapply perm_trans; [apply filter_perm; exact Hp|].
+  simpl. rewrite Z.eqb_refl. simpl. fold (i_remove k r). rewrite i_remove_notin by exact Hnotin.
+  apply Permutation_refl.
+Qed.
+
+Lemma nodup_key_split k p l :
+  NoDup (map fst l) -> In (k, p) l -> Permutation l ((k, p) :: i_remove k l).
+Proof.
+  induction l as [|[k0 p0] r IH]; intros Hnd Hin; [destruct Hin|].
+  simpl in Hnd. inversion Hnd as [|k1 l1 Hnotin Hnd']; subst. simpl.
+  destruct (Z.eqb_spec k k0) as [->|Hne]; simpl.
+  - destruct Hin as [E|Hin].
+    + injection E as ->. fold (i_remove k0 r). rewrite i_remove_notin by exact Hnotin.
+      apply Permutation_refl.
+    + exfalso. apply Hnotin. apply (in_map fst) in Hin. exact Hin.
+  - destruct Hin as [E|Hin]; [congruence|].
+    eapply perm_trans; [apply perm_skip, (IH Hnd' Hin)|apply perm_swap].
+Qed.
+
+Lemma same_map_perm l1 l2 :
+  NoDup (map fst l1) -> NoDup (map fst l2) -> (forall k, i_get k l1 = i_get k l2) ->
+  Permutation l1 l2.
+Proof.
+  intros H1 H2 Hget. apply NoDup_Permutation.
+  - eapply NoDup_map_inv; exact H1.
+  - eapply NoDup_map_inv; exact H2.
+  - intros [k p]. rewrite <- (i_get_In k p l1 H1), <- (i_get_In k p l2 H2), Hget. tauto.
+Qed.
+
+Lemma first_occ_get k l : i_get k (first_occ l) = i_get k l.
+Proof.
+  induction l as [|[k0 p0] r IH]; simpl; [reflexivity|].
+  destruct (Z.eqb_spec k k0) as [->|Hne]; [reflexivity|].
+  rewrite i_get_remove. destruct (Z.eqb_spec k k0); [congruence|exact IH].
+Qed.
+
+Lemma first_occ_nodup l : NoDup (map fst (first_occ l)).
+Proof.
+  induction l as [|[k0 p0] r IH]; simpl; constructor.
+  - apply i_remove_key.
+  - apply nodup_filter_keys. exact IH.
+Qed.
+
+(* the de-duplicating loop of NewPriorityQueue *)
+Definition filt_inv (m : imap Z) (acc : list (Z * Z)) : Prop :=
+  NoDup (map fst acc) /\ (forall k, m_get Z.eqb m k = None <-> ~ In k (map fst acc)).
+
+Lemma pq_filter_spec : forall l m acc,
+    filt_inv m acc ->
+    filt_inv (fst (pq_filter Z.eqb l m acc)) (snd (pq_filter Z.eqb l m acc)) /\
+    forall k, i_get k (snd (pq_filter Z.eqb l m acc)) =
+              match i_get k acc with Some p => Some p | None => i_get k l end.
+Proof.
+  induction l as [|[k0 p0] r IH]; intros m acc [Hnd Hdom]; simpl.
+  - split; [split; assumption|]. intros k. destruct (i_get k acc); reflexivity.
+  - destruct (m_get Z.eqb m k0) as [v|] eqn:Em.
+    + destruct (IH m acc (conj Hnd Hdom)) as [HJ Hget]. split; [exact HJ|].
+      intros k. rewrite Hget. destruct (i_get k acc) as [p|] eqn:Eg; [reflexivity|].
+      destruct (Z.eqb_spec k k0) as [->|Hne]; [|reflexivity].
+      exfalso. apply i_get_None in Eg. apply Hdom in Eg. congruence.
+    + assert (HJ : filt_inv (m_set Z.eqb k0 (-1) m) (acc ++ [(k0, p0)])).
+      { split.
+        - eapply Permutation_NoDup; [apply Permutation_map, Permutation_cons_append|].
+          simpl. constructor; [apply Hdom; exact Em|exact Hnd].
+        - intros k. rewrite m_get_set, map_app, in_app_iff. simpl.
+          destruct (Z.eqb_spec k k0) as [->|Hne].
+          + split; [discriminate|]. intros H. exfalso. apply H. right. left. reflexivity.
+          + rewrite Hdom. split; [intros H [Hin|[E|[]]]; [auto|congruence]|intros H Hin; apply H; left; exact Hin]. }
+      destruct (IH _ _ HJ) as [HJ' Hget]. split; [exact HJ'|].
+      intros k. rewrite Hget, i_get_app. simpl.
+      destruct (i_get k acc); [reflexivity|]. destruct (k =? k0); reflexivity.
+Qed.
+
+(* ---------- xheap.PriorityQueue[int,int]: index map, heap order, refinement (C05) ---------- *)
+Section QueueHist.
+  Variable pless : Z -> Z -> bool.
+  Hypothesis SWO : strict_weak pless.
+
+  Notation qstep := (qstep pless).
+  Notation qinit := (qinit pless).
+  Notation qrun := (qrun pless).
+  Notation qrun_from := (qrun_from pless).
+  Notation qrun_state := (qrun_state pless).
+  Notation qrun_state_from := (qrun_state_from pless).
+  Notation kpl := (@kpless Z Z pless).
+  Notation kpi := (@kp_index Z Z Z.eqb).
+  Notation mget := (m_get Z.eqb).
+
+  Lemma kpless_swo : strict_weak kpl.
+  Proof.
+    destruct SWO as [H1 [H2 H3]]. unfold kpless. split; [|split].
+    - intros a. apply H1.
+    - intros a b c. apply H2.
+    - intros a b c. apply H3.
+  Qed.
+
+  Definition qinv (q : zpq) : Prop :=
+    index_exact Z.eqb (ha q) (hs q) /\ heap_ordered kpl (ha q).
+
+  Lemma exact_key_in (q : zpq) k i : index_exact Z.eqb (ha q) (hs q) ->
+    mget (hs q) k = Some i -> exists p, zget (ha q) i = Some (k, p).
+  Proof. intros [He _] H. apply He. exact H. Qed.
+
+  Lemma exact_key_notin (q : zpq) k : index_exact Z.eqb (ha q) (hs q) ->
+    mget (hs q) k = None -> ~ In k (map fst (ha q)).
+  Proof.
+    intros [He _] H Hin. apply In_key_zget in Hin. destruct Hin as [i [p Hp]].
+    assert (Hm : mget (hs q) k = Some i) by (apply He; exists p; exact Hp). congruence.
+  Qed.
+
+  Lemma pq_update_spec (q : zpq) k p :
+    qinv q ->
+    exists q', pq_update Z.eqb pless k p q = Ok q' /\ qinv q' /\
+               Permutation (ha q') ((k, p) :: i_remove k (ha q)).
+  Proof.
+    intros [Hex Ho]. unfold pq_update. destruct (mget (hs q) k) as [idx|] eqn:Em.
+    - destruct (exact_key_in q k idx Hex Em) as [p0 Hp0].
+      destruct (update_at_spec kpl kpi q idx (k, p) (k, p0) Hp0) as [c' [E [Hs Ho']]].
+      eexists. split; [exact E|]. simpl.
+      destruct (set_inv (ha q) (hs q) idx k p p0 Hex Hp0) as [Ht Hd].
+      destruct (swaps_tracks _ c' (fun _ => False) Hs (conj Ht Hd)) as [Ht' Hd'].
+      pose proof (exact_of_tracks _ _ Ht' Hd') as Hex'.
+      split; [split; [exact Hex'|apply Ho'; [exact kpless_swo|exact Ho]]|].
+      apply swaps_perm in Hs. simpl in Hs.
+      set (U := upd (ha q) (Z.to_nat idx) (k, p)) in *.
+      assert (HndU : NoDup (map fst U)).
+      { eapply Permutation_NoDup; [apply Permutation_map, Permutation_sym; exact Hs|exact (proj2 Hex')]. }
+      assert (HinU : In (k, p) U).
+      { apply (zget_In U idx). apply zget_upd_same. apply zget_Some_range in Hp0. exact Hp0. }
+      assert (Hrem : Permutation (i_remove k (ha q)) (i_remove k U)).
+      { pose proof (perm_upd (ha q) (Z.to_nat idx) (k, p0) (k, p) (zget_nth_error _ _ _ Hp0)) as Hpu.
+        apply (filter_perm (fun x => negb (k =? fst x))) in Hpu. simpl in Hpu.
+        rewrite Z.eqb_refl in Hpu. simpl in Hpu. exact Hpu. }
+      eapply perm_trans; [apply Permutation_sym; exact Hs|].
+      eapply perm_trans; [apply (nodup_key_split k p U HndU HinU)|].
+      apply perm_skip, Permutation_sym. exact Hrem.
+    - destruct (push_spec kpl kpi (k, p) q) as [c' [E [Hs Ho']]].
+      eexists. split; [exact E|]. simpl.
+      destruct (push_inv (ha q) (hs q) k p Hex Em) as [Ht Hd].
+      destruct (swaps_tracks _ c' (fun _ => False) Hs (conj Ht Hd)) as [Ht' Hd'].
+      split; [split; [apply exact_of_tracks; assumption|apply Ho'; [exact kpless_swo|exact Ho]]|].
+      apply swaps_perm in Hs. simpl in Hs.
+      rewrite i_remove_notin by (apply exact_key_notin; assumption).
+      eapply perm_trans; [apply Permutation_sym; exact Hs|].
+      apply Permutation_sym, Permutation_cons_append.
+  Qed.
+
+  (* what Pop and Remove share: cut, percolate, delete the key *)
+  Lemma after_cut (q : zpq) i k p0 lst (c' : core (Z * Z) (imap Z)) :
+    qinv q -> zget (ha q) i = Some (k, p0) -> zget (ha q) (zlen (ha q) - 1) = Some lst ->
+    swaps kpi (cut_core kpi (ha q) (hs q) i lst) c' ->
+    index_exact Z.eqb (fst c') (m_del Z.eqb k (snd c')) /\
+    Permutation (ha q) ((k, p0) :: fst c').
+  Proof.
+    intros [Hex Ho] Hi Hl Hs.
+    destruct (cut_inv (ha q) (hs q) i k p0 lst Hex Hi Hl) as [Ht [Hd Hnk]].
+    destruct (swaps_tracks _ c' _ Hs (conj Ht Hd)) as [Ht' Hd'].
+    apply swaps_perm in Hs. simpl in Hs.
+    split.
+    - apply finish_del; [exact Ht'|exact Hd'|].
+      intros Hin. apply Hnk. eapply Permutation_in; [apply Permutation_map, Permutation_sym; exact Hs|exact Hin].
+    - eapply perm_trans; [apply (cut_perm (ha q) i (k, p0) lst Hi Hl)|apply perm_skip; exact Hs].
+  Qed.
+
+  Lemma pq_pop_spec (q : zpq) k p :
+    qinv q -> zget (ha q) 0 = Some (k, p) ->
+    exists q', pq_pop Z.eqb 0 0 pless q = Ok (k, q') /\ qinv q' /\ hgen q' = hgen q + 1 /\
+               Permutation (ha q) ((k, p) :: ha q').
+  Proof.
+    intros Hq H0. unfold pq_pop.
+    destruct (pop_spec (kpzero 0 0) kpl kpi q (k, p) H0) as [lst [c' [Hl [E [Hs Ho']]]]].
+    rewrite E. simpl. eexists. split; [reflexivity|]. simpl.
+    destruct (after_cut q 0 k p lst c' Hq H0 Hl Hs) as [Hex' Hp].
+    split; [split; [exact Hex'|apply Ho'; [exact kpless_swo|exact (proj2 Hq)]]|].
+    split; [reflexivity|exact Hp].
+  Qed.
+
+  Lemma pq_pop_empty (q : zpq) : ha q = [] -> pq_pop Z.eqb 0 0 pless q = Panic PIndex.
+  Proof. intros E. unfold pq_pop. rewrite pop_empty by exact E. reflexivity. Qed.
+
+  Lemma pq_remove_spec (q : zpq) k i :
+    qinv q -> mget (hs q) k = Some i ->
+    exists p0 q', pq_remove Z.eqb 0 0 pless k q = Ok q' /\ qinv q' /\
+                  Permutation (ha q) ((k, p0) :: ha q').
+  Proof.
+    intros Hq Em. unfold pq_remove. rewrite Em.
+    destruct (exact_key_in q k i (proj1 Hq) Em) as [p0 Hp0].
+    destruct (remove_at_spec (kpzero 0 0) kpl kpi q i (k, p0) Hp0) as [lst [c' [Hl [E [Hs Ho']]]]].
+    rewrite E. simpl. exists p0. eexists. split; [reflexivity|]. simpl.
+    destruct (after_cut q i k p0 lst c' Hq Hp0 Hl Hs) as [Hex' Hp].
+    split; [split; [exact Hex'|apply Ho'; [exact kpless_swo|exact (proj2 Hq)]]|exact Hp].
+  Qed.
+
+  Lemma pq_remove_absent (q : zpq) k :
+    mget (hs q) k = None -> pq_remove Z.eqb 0 0 pless k q = Ok q.
+  Proof. intros Em. unfold pq_remove. rewrite Em. reflexivity. Qed.
+
+  (* --- New --- *)
+  Lemma qnew_spec initial :
+    exists q, qnew pless initial = Ok q /\ qinv q /\ hgen q = 0 /\
+              Permutation (ha q) (first_occ initial).
+  Proof.
+    unfold qnew, pq_new.
+    assert (HJ0 : filt_inv [] []).
+    { split; [constructor|]. intros k. simpl. tauto. }
+    destruct (pq_filter_spec initial [] [] HJ0) as [[Hnd Hdom] Hget].
+    destruct (pq_filter Z.eqb initial [] []) as [m filtered]. simpl in *.
+    destruct (new_spec kpl kpi filtered m) as [c1 [Hs [E Ho]]].
+    eexists. split; [exact E|]. simpl.
+    assert (Hp : Permutation filtered (fst c1)) by (apply swaps_perm in Hs; exact Hs).
+    assert (Hnd1 : NoDup (map fst (fst c1))).
+    { eapply Permutation_NoDup; [apply Permutation_map; exact Hp|exact Hnd]. }
+    assert (Hd0 : dom_sub filtered m (fun _ => False)).
+    { intros k v Hm. left.
+      destruct (in_dec Z.eq_dec k (map fst filtered)) as [Hin|Hnin]; [exact Hin|].
+      apply Hdom in Hnin. congruence. }
+    pose proof (swaps_dom _ c1 _ Hs Hd0) as Hd1.
+    split; [split; [apply notified_inv; assumption|apply Ho; exact kpless_swo]|].
+    split; [reflexivity|].
+    eapply perm_trans; [apply Permutation_sym; exact Hp|].
+    apply same_map_perm; [exact Hnd|apply first_occ_nodup|].
+    intros k. rewrite Hget, first_occ_get. reflexivity.
+  Qed.
+
+  Lemma qinit_spec initial :
+    exists q, qnew pless initial = Ok q /\ qinit initial = mkQst q [] /\ qinv q /\ hgen q = 0 /\
+              Permutation (ha q) (first_occ initial).
+  Proof.
+    destruct (qnew_spec initial) as [q [E [Hq [Hg Hp]]]].
+    exists q. unfold Model.qinit. rewrite E. auto.
+  Qed.
+
+  Lemma qrun_eq initial ops : qrun initial ops = qrun_from (qinit initial) ops.
+  Proof.
+    destruct (qinit_spec initial) as [q [E [Ei _]]]. unfold Model.qrun. rewrite E, Ei. reflexivity.
+  Qed.
+
+  (* --- the invariant over all histories --- *)
+  Lemma qstep_inv s o : qinv (qq s) -> qinv (qq (fst (qstep s o))).
+  Proof.
+    intros Hq. destruct o; cbv beta iota zeta delta [Model.qstep].
+    - destruct (pq_update_spec (qq s) k p Hq) as [q' [E [Hq' _]]]. rewrite E. exact Hq'.
+    - destruct (zget (ha (qq s)) 0) as [[k p]|] eqn:E0.
+      + destruct (pq_pop_spec (qq s) k p Hq E0) as [q' [E [Hq' _]]]. rewrite E. exact Hq'.
+      + apply zget0_nil in E0. rewrite pq_pop_empty by exact E0. exact Hq.
+    - destruct (pq_peek (qq s)); exact Hq.
+    - exact Hq.
+    - destruct (pq_priority Z.eqb 0 k (qq s)); exact Hq.
+    - destruct (mget (hs (qq s)) k) as [i|] eqn:Em.
+      + destruct (pq_remove_spec (qq s) k i Hq Em) as [p0 [q' [E [Hq' _]]]]. rewrite E. exact Hq'.
+      + rewrite pq_remove_absent by exact Em. exact Hq.
+    - exact Hq.
+    - unfold pq_grow, grow. destruct (n <? 0); exact Hq.
+    - exact Hq.
+    - destruct (nth_error (qits s) j); [|exact Hq]. destruct (pq_iter_next (qq s) h). exact Hq.
+    - destruct (pq_iterate_all (qq s)) as [[l|c]|]; exact Hq.
+  Qed.
+
+  Lemma queue_inv_reach initial ops : qinv (qq (qrun_state initial ops)).
+  Proof.
+    apply (qreach_ind pless (fun s => qinv (qq s))).
+    - destruct (qinit_spec initial) as [q [_ [E [Hq _]]]]. rewrite E. exact Hq.
+    - intros s o. apply qstep_inv.
+  Qed.
+
+  (* --- reading the ideal map through the index --- *)
+  Lemma lookup_present (q : zpq) l k i :
+    qinv q -> Permutation (ha q) l -> mget (hs q) k = Some i ->
+    exists p, zget (ha q) i = Some (k, p) /\ i_get k l = Some p.
+  Proof.
+    intros [Hex _] Hp Em. destruct (exact_key_in q k i Hex Em) as [p Hz]. exists p.
+    split; [exact Hz|]. apply i_get_In.
+    - eapply Permutation_NoDup; [apply Permutation_map; exact Hp|exact (proj2 Hex)].
+    - eapply Permutation_in; [exact Hp|eapply zget_In; exact Hz].
+  Qed.
+
+  Lemma lookup_absent (q : zpq) l k :
+    qinv q -> Permutation (ha q) l -> mget (hs q) k = None -> i_get k l = None.
+  Proof.
+    intros [Hex _] Hp Em. apply i_get_None. intros Hin.
+    apply (exact_key_notin q k Hex Em).
+    eapply Permutation_in; [apply Permutation_map, Permutation_sym; exact Hp|exact Hin].
+  Qed.
+
+  Lemma root_is_min_key (q : zpq) l k p :
+    qinv q -> Permutation (ha q) l -> zget (ha q) 0 = Some (k, p) -> is_min_key pless k l.
+  Proof.
+    intros [Hex Ho] Hp H0.
+    assert (Hnd : NoDup (map fst l)).
+    { eapply Permutation_NoDup; [apply Permutation_map; exact Hp|exact (proj2 Hex)]. }
+    exists p. split.
+    - apply i_get_In; [exact Hnd|]. eapply Permutation_in; [exact Hp|eapply zget_In; exact H0].
+    - intros k' p' Hg. apply i_get_In in Hg; [|exact Hnd].
+      apply (Permutation_in _ (Permutation_sym Hp)) in Hg. apply In_zget in Hg.
+      destruct Hg as [i Hi].
+      exact (root_min kpl kpless_swo (ha q) (k, p) Ho H0 i (k', p') Hi).
+  Qed.
+
+  Lemma qspec_from : forall ops s l,
+      qinv (qq s) -> 0 <= hgen (qq s) -> Permutation (ha (qq s)) l ->
+      qspec_run pless l ops (qrun_from s ops).
+  Proof.
+    induction ops as [|o ops IH]; intros s l Hq Hg Hp; simpl; [exact I|].
+    assert (Hnd : NoDup (map fst l)).
+    { eapply Permutation_NoDup; [apply Permutation_map; exact Hp|exact (proj2 (proj1 Hq))]. }
+    pose proof (qstep_qq_gen pless s o) as [Hle _].
+    pose proof (qstep_inv s o Hq) as Hq'.
+    destruct (qstep s o) as [s' r] eqn:Es. simpl in Hle, Hq'.
+    destruct o; cbv beta iota zeta delta [Model.qstep] in Es.
+    - destruct (pq_update_spec (qq s) k p Hq) as [q' [E [_ Hp']]]. rewrite E in Es.
+      injection Es as <- <-. split; [reflexivity|]. simpl in *.
+      apply IH; [exact Hq'|simpl; lia|].
+      eapply perm_trans; [exact Hp'|]. apply perm_skip. apply filter_perm. exact Hp.
+    - destruct (zget (ha (qq s)) 0) as [[k p]|] eqn:E0.
+      + destruct (pq_pop_spec (qq s) k p Hq E0) as [q' [E [_ [_ Hp']]]]. rewrite E in Es.
+        injection Es as <- <-. simpl in *.
+        pose proof (root_is_min_key (qq s) l k p Hq Hp E0) as Hmin.
+        split.
+        * destruct l as [|y l0]; [destruct Hmin as [p1 [Hg1 _]]; discriminate|].
+          exists k. split; [reflexivity|exact Hmin].
+        * apply IH; [exact Hq'|simpl; lia|].
+          apply Permutation_sym. apply (i_remove_perm_cons k p); [exact Hnd|].
+          eapply perm_trans; [apply Permutation_sym; exact Hp|exact Hp'].
+      + apply zget0_nil in E0. rewrite pq_pop_empty in Es by exact E0.
+        injection Es as <- <-. rewrite E0 in Hp. apply Permutation_nil in Hp. subst l.
+        split; [reflexivity|]. simpl. apply IH; try assumption. rewrite E0. apply Permutation_refl.
+    - unfold pq_peek, peek in Es. simpl. destruct (zget (ha (qq s)) 0) as [[k p]|] eqn:E0; simpl in Es;
+        injection Es as <- <-.
+      + pose proof (root_is_min_key (qq s) l k p Hq Hp E0) as Hmin. split.
+        * destruct l as [|y l0]; [destruct Hmin as [p1 [Hg1 _]]; discriminate|].
+          exists k. split; [reflexivity|exact Hmin].
+        * apply IH; assumption.
+      + apply zget0_nil in E0. rewrite E0 in Hp. apply Permutation_nil in Hp. subst l.
+        split; [reflexivity|]. apply IH; try assumption. rewrite E0. apply Permutation_refl.
+    - injection Es as <- <-. simpl. split; [|apply IH; assumption].
+      unfold pq_contains. destruct (mget (hs (qq s)) k) as [i|] eqn:Em.
+      + destruct (lookup_present (qq s) l k i Hq Hp Em) as [p [_ Hgl]]. rewrite Hgl. reflexivity.
+      + rewrite (lookup_absent (qq s) l k Hq Hp Em). reflexivity.
+    - unfold pq_priority, item in Es. simpl. destruct (mget (hs (qq s)) k) as [i|] eqn:Em.
+      + destruct (lookup_present (qq s) l k i Hq Hp Em) as [p [Hz Hgl]]. rewrite Hz in Es. simpl in Es.
+        injection Es as <- <-. rewrite Hgl. split; [reflexivity|apply IH; assumption].
+      + injection Es as <- <-. rewrite (lookup_absent (qq s) l k Hq Hp Em).
+        split; [reflexivity|apply IH; assumption].
+    - destruct (mget (hs (qq s)) k) as [i|] eqn:Em.
+      + destruct (pq_remove_spec (qq s) k i Hq Em) as [p0 [q' [E [_ Hp']]]]. rewrite E in Es.
+        injection Es as <- <-. split; [reflexivity|]. simpl in *.
+        apply IH; [exact Hq'|simpl; lia|].
+        apply Permutation_sym. apply (i_remove_perm_cons k p0); [exact Hnd|].
+        eapply perm_trans; [apply Permutation_sym; exact Hp|exact Hp'].
+      + rewrite pq_remove_absent in Es by exact Em. injection Es as <- <-.
+        split; [reflexivity|]. simpl in *.
+        rewrite i_remove_notin; [apply IH; assumption|].
+        apply i_get_None. apply (lookup_absent (qq s) l k Hq Hp Em).
+    - injection Es as <- <-. simpl. split; [|apply IH; assumption].
+      unfold pq_len, len. apply Permutation_length in Hp. unfold zlen. rewrite Hp. reflexivity.
+    - unfold pq_grow, grow in Es. simpl. destruct (n <? 0); injection Es as <- <-;
+        (split; [reflexivity|apply IH; assumption]).
+    - injection Es as <- <-. simpl. split; [reflexivity|apply IH; assumption].
+    - simpl. split; [exact I|].
+      destruct (nth_error (qits s) j) as [it|].
+      + destruct (pq_iter_next (qq s) it) as [r0 it']. injection Es as <- <-.
+        destruct r0 as [[x|]|c]; simpl; apply IH; assumption.
+      + injection Es as <- <-. simpl. apply IH; assumption.
+    - rewrite pq_iterate_all_unchanged in Es by lia. injection Es as <- <-. simpl.
+      split; [|apply IH; assumption].
+      exists (map fst (ha (qq s))). split; [reflexivity|apply Permutation_map; exact Hp].
+  Qed.
+
+  Lemma queue_refines_map initial ops :
+    qspec_run pless (first_occ initial) ops (qrun initial ops).
+  Proof.
+    rewrite qrun_eq. destruct (qinit_spec initial) as [q [_ [E [Hq [Hg Hp]]]]]. rewrite E.
+    apply qspec_from; simpl; [exact Hq|lia|exact Hp].
+  Qed.
+
+  Lemma queue_new_first_occ initial :
+    let a := ha (qq (qinit initial)) in
+    NoDup (map fst a) /\ (forall k, i_get k a = i_get k initial) /\
+    Permutation a (first_occ initial).
+  Proof.
+    destruct (qinit_spec initial) as [q [_ [E [Hq [_ Hp]]]]]. rewrite E. simpl.
+    assert (Hnd : NoDup (map fst (ha q))) by exact (proj2 (proj1 Hq)).
+    split; [exact Hnd|]. split; [|exact Hp].
+    intros k. rewrite <- (first_occ_get k initial).
+    destruct (i_get k (first_occ initial)) as [p|] eqn:Eg.
+    - apply i_get_In; [exact Hnd|].
+      apply (Permutation_in _ (Permutation_sym Hp)). apply i_get_In; [apply first_occ_nodup|exact Eg].
+    - apply i_get_None. apply i_get_None in Eg. intros Hin. apply Eg.
+      eapply Permutation_in; [apply Permutation_map; exact Hp|exact Hin].
+  Qed.
+
+  Lemma queue_empty_panics initial ops :
+    let s := qrun_state initial ops in
+    (snd (qstep s QPop) = OPanic <-> ha (qq s) = []) /\
+    (snd (qstep s QPeek) = OPanic <-> ha (qq s) = []) /\
+    (snd (qstep s QPop) = OPanic -> fst (qstep s QPop) = s) /\
+    fst (qstep s QPeek) = s.
+  Proof.
+    intros s. pose proof (queue_inv_reach initial ops) as Hq. fold s in Hq.
+    assert (Hpop : snd (qstep s QPop) = OPanic <-> ha (qq s) = []).
+    { cbv beta iota zeta delta [Model.qstep].
+      destruct (zget (ha (qq s)) 0) as [[k p]|] eqn:E0.
+      - destruct (pq_pop_spec (qq s) k p Hq E0) as [q' [E _]]. rewrite E. simpl.
+        split; [discriminate|]. intros En. rewrite En in E0. discriminate.
+      - apply zget0_nil in E0. rewrite pq_pop_empty by exact E0. simpl. tauto. }
+    split; [exact Hpop|]. split; [|split].
+    - cbv beta iota zeta delta [Model.qstep]. unfold pq_peek, peek.
+      destruct (zget (ha (qq s)) 0) as [x|] eqn:E0; simpl.
+      + split; [discriminate|]. intros En. rewrite En in E0. discriminate.
+      + apply zget0_nil in E0. tauto.
+    - intros Hp. apply Hpop in Hp. cbv beta iota zeta delta [Model.qstep].
+      rewrite pq_pop_empty by exact Hp. reflexivity.
+    - cbv beta iota zeta delta [Model.qstep]. destruct (pq_peek (qq s)); reflexivity.
+  Qed.
+  (* popping until empty returns every key once, priorities in non-decreasing order *)
+  Lemma queue_drain_from : forall n s,
+      qinv (qq s) -> length (ha (qq s)) = n ->
+      exists kps, qrun_from s (repeat QPop n) = map (fun x => OVal (fst x)) kps /\
+                  Permutation kps (ha (qq s)) /\ nondecreasing pless (map snd kps) /\
+                  ha (qq (qrun_state_from s (repeat QPop n))) = [].
+  Proof.
+    induction n as [|n IH]; intros s Hq Hlen.
+    - exists []. simpl. split; [reflexivity|].
+      destruct (ha (qq s)); [|discriminate]. repeat split; constructor.
+    - destruct (zget (ha (qq s)) 0) as [[k p]|] eqn:E0;
+        [|apply zget0_nil in E0; rewrite E0 in Hlen; discriminate].
+      destruct (pq_pop_spec (qq s) k p Hq E0) as [q' [E [Hq' [_ Hp]]]].
+      assert (Hlen' : length (ha q') = n).
+      { apply Permutation_length in Hp. simpl in Hp. lia. }
+      destruct (IH (mkQst q' (qits s)) Hq' Hlen') as [kps [Hrun [Hpx [Hsort Hemp]]]].
+      exists ((k, p) :: kps). change (repeat QPop (S n)) with (QPop :: repeat QPop n).
+      cbn [Model.qrun_from Model.qrun_state_from].
+      cbv beta iota zeta delta [Model.qstep]. rewrite E. cbn [fst map].
+      split; [rewrite Hrun; reflexivity|].
+      split; [eapply perm_trans; [apply perm_skip; exact Hpx|apply Permutation_sym; exact Hp]|].
+      split; [|exact Hemp].
+      constructor; [exact Hsort|].
+      apply Forall_forall. intros p' Hy. apply in_map_iff in Hy. destruct Hy as [[k' p''] [Ep Hin]].
+      simpl in Ep. subst p''.
+      assert (Hina : In (k', p') (ha (qq s))).
+      { eapply Permutation_in; [apply Permutation_sym; exact Hp|].
+        right. eapply Permutation_in; [exact Hpx|exact Hin]. }
+      apply In_zget in Hina. destruct Hina as [i Hi].
+      exact (root_min kpl kpless_swo (ha (qq s)) (k, p) (proj2 Hq) E0 i (k', p') Hi).
+  Qed.
+
+  Lemma queue_drain_sorted initial ops :
+    let s := qrun_state initial ops in
+    let n := length (ha (qq s)) in
+    exists kps, qrun_from s (repeat QPop n) = map (fun x => OVal (fst x)) kps /\
+                Permutation kps (ha (qq s)) /\ nondecreasing pless (map snd kps) /\
+                ha (qq (qrun_state_from s (repeat QPop n))) = [].
+  Proof.
+    intros s n. apply queue_drain_from; [apply queue_inv_reach|reflexivity].
+  Qed.
+End QueueHist.
+
+(* ---------- the orderings used by the harness are strict weak orders ---------- *)
+Lemma swo_of_key (f : Z -> Z) : strict_weak (fun a b => f a <? f b).
+Proof.
+  split; [|split].
+  - intros a. apply Z.ltb_irrefl.
+  - intros a b c H1 H2. apply Z.ltb_lt in H1, H2. apply Z.ltb_lt. lia.
+  - intros a b c H1 H2. apply Z.ltb_ge in H1, H2. apply Z.ltb_ge. lia.
+Qed.
+
+Example swo_ltb : strict_weak Z.ltb.
+Proof. exact (swo_of_key (fun x => x)). Qed.
+
+Example swo_reversed : strict_weak (fun a b => b <? a).
+Proof.
+  split; [|split].
+  - intros a. apply Z.ltb_irrefl.
+  - intros a b c H1 H2. apply Z.ltb_lt in H1, H2. apply Z.ltb_lt. lia.
+  - intros a b c H1 H2. apply Z.ltb_ge in H1, H2. apply Z.ltb_ge. lia.
+Qed.
+
+Example swo_coarse : strict_weak (fun a b => Z.quot a 4 <? Z.quot b 4).
+Proof. exact (swo_of_key (fun x => Z.quot x 4)). Qed.
+
+Lemma swo_ext {T} (f g : T -> T -> bool) :
+  (forall a b, f a b = g a b) -> strict_weak f -> strict_weak g.
+Proof.
+  intros E [H1 [H2 H3]]. split; [|split].
+  - intros a. rewrite <- E. apply H1.
+  - intros a b c. rewrite <- !E. apply H2.
+  - intros a b c. rewrite <- !E. apply H3.
+Qed.
+
+Lemma cmp_less_ltb (f : Z -> Z) a b :
+  (f a <? f b) = cmp_less (fun x y => Z.compare (f x) (f y)) a b.
+Proof. unfold cmp_less, Z.ltb. destruct (f a ?= f b); reflexivity. Qed.
+
+Theorem order_of_swo mode : strict_weak (order_of mode).
+Proof.
+  unfold order_of.
+  destruct (mode =? 0); [exact swo_ltb|].
+  destruct (mode =? 1); [exact swo_reversed|].
+  destruct (mode =? 2); [exact swo_coarse|].
+  destruct (mode =? 3).
+  - eapply swo_ext; [|exact swo_ltb]. intros a b. apply (cmp_less_ltb (fun x => x)).
+  - eapply swo_ext; [|exact swo_coarse]. intros a b. apply (cmp_less_ltb (fun x => Z.quot x 4)).
+Qed.
+
+(* ---------- non-vacuity: the model runs non-trivial histories ---------- *)
+Example heap_history_runs :
+  hrun Z.ltb [5; 3; 8; 1; 3] [HPush 0; HPop; HPeek; HLen; HPop; HPop; HIterate] =
+  [OUnit; OVal 0; OVal 1; OInt 5; OVal 1; OVal 3; OList [3; 5; 8]].
+Proof. vm_compute. reflexivity. Qed.
+
+Example queue_history_runs :
+  qrun Z.ltb [(1, 50); (2, 10); (1, 0); (3, 30)]
+       [QUpdate 1 5; QPeek; QRemove 2; QContains 2; QPriority 3; QPop; QPop; QPop] =
+  [OUnit; OVal 1; OUnit; OBool false; OInt 30; OVal 1; OVal 3; OPanic].
+Proof. vm_compute. reflexivity. Qed.
+
+(* an iterator that is under way, a Push, and the panic of its next call; a second iterator that
+   runs to the end of its snapshot *)
+Example heap_ghost_runs :
+  snd (hgrun Z.ltb (hinit Z.ltb [4; 2; 9]) []
+         [HIterNew; HIterNew; HIterNext 0; HPush 1; HIterNext 0;
+          HIterNext 1; HIterNext 1; HIterNext 1; HIterNext 1; HIterNext 1]) =
+  [mkGhost true [2; 4; 9] [2] false true;
+   mkGhost true [1; 2; 9; 4] [1; 2; 9; 4] true false].
+Proof. vm_compute. reflexivity. Qed.
+
+Example queue_ghost_runs :
+  snd (qgrun Z.ltb (qinit Z.ltb [(7, 4); (8, 2); (9, 9)]) []
+         [QIterNew; QIterNext 0; QUpdate 7 1; QIterNext 0; QIterNew; QIterNext 1; QIterNext 1;
+          QIterNext 1; QIterNext 1]) =
+  [mkGhost true [8; 7; 9] [8] false true;
+   mkGhost true [7; 8; 9] [7; 8; 9] true false].
+Proof. vm_compute. reflexivity. Qed.
